@@ -235,9 +235,66 @@ def bounded_multifile_sets(ctx):
         shutil.rmtree(tmp, ignore_errors=True)
 
 
+def bounded_symlinks(ctx):
+    """a file given through a SYMBOLIC LINK: re-pointing the link to a file with other content -- same size or not, its
+    mtime equal to, older or newer than the old target's -- or editing the target must change the hash"""
+    import itertools, shutil, tempfile
+    from pathlib import Path
+    from fileformats.generic import File
+    from pydra.utils.hash import hash_function
+
+    tmp = Path(tempfile.mkdtemp(prefix="vf_c09l_"))
+    old_env = os.environ.get("PYDRA_HASH_CACHE")
+    os.environ["PYDRA_HASH_CACHE"] = str(tmp / "hashcache")
+    dom = ctx.domain(
+        "files-given-through-symlinks",
+        bound="File(link) with link -> target A hashed; then (a) the link re-pointed (a new symlink renamed over the old one) to a target B with other content x (same size, other size) x B's mtime in (equal to A's, A-1s, A+1s), or (b) A edited in place (same size, other size; mtime +1s / restored); hash before and after, one persistent hash cache",
+        rule="one case per (operation, size kind, mtime kind); the hash must change; non-trivial always",
+        exhaustive=True,
+    )
+    try:
+        base = 1_700_000_000
+        n = 0
+        for op, wkind, mkind in itertools.product(("retarget", "edit-target"), ("same-size", "other-size"), ("equal", "-1s", "+1s")):
+            n += 1
+            d = tmp / f"c{n}"
+            d.mkdir()
+            a, b, link = d / "a.txt", d / "b.txt", d / "in.txt"
+            a.write_text("content-A")
+            os.utime(a, (base, base))
+            os.symlink(a, link)
+            before = hash_function(File(link))
+            t = base + {"equal": 0, "-1s": -1, "+1s": 1}[mkind]
+            if op == "retarget":
+                b.write_text("CONTENT-B" if wkind == "same-size" else "a much longer content B")
+                os.utime(b, (t, t))
+                new = d / "in.txt.new"
+                os.symlink(b, new)
+                os.replace(new, link)
+            else:
+                a.write_text("CONTENT-a" if wkind == "same-size" else "a much longer content a")
+                os.utime(a, (t, t))
+            after = hash_function(File(link))
+            case = {"op": op, "write": wkind, "mtime": mkind, "changed": before != after}
+            # editing the target in place and RESTORING its mtime (same size or not) is the documented blind spot of an
+            # mtime-keyed cache for plain files as well (known class of this property); not counted here
+            if op == "edit-target" and mkind == "equal":
+                continue
+            dom.case((op, wkind, mkind), sample=case)
+            if after == before:
+                ctx.fail(None, f"hash of a file given through a symlink unchanged after {op} ({wkind}, mtime {mkind})", dict(case, kind="symlink"), domain=dom)
+    finally:
+        if old_env is None:
+            os.environ.pop("PYDRA_HASH_CACHE", None)
+        else:
+            os.environ["PYDRA_HASH_CACHE"] = old_env
+        shutil.rmtree(tmp, ignore_errors=True)
+
+
 def run(ctx):
     deductive(ctx)
     bounded_multifile_sets(ctx)
+    bounded_symlinks(ctx)
     _run_bounded(ctx)
 
 
